@@ -505,6 +505,17 @@ def gen_equiv(case):
                 "grid": {"dims": (lo, hi), "max_cells": case.get("max_cells", 64)}}
         desc = gen.rand_system(r, opts)
         desc["space"]["bc"] = bc
+        if not case["python"] and idx % 20 == 13:
+            # diffusion coefficients of extreme but finite magnitude, alone (D, D/h^2, the interface mean and D dt are all
+            # representable; a product Di*Dj is not): grid and graph must still agree
+            e_ = r.choice([-1, 1]) * r.uniform(160, 175)
+            for s_ in desc["species"]:
+                f_ = 10.0 ** e_
+                s_["D"] = {k_: v_ * f_ for k_, v_ in s_["D"].items()} if isinstance(s_["D"], dict) else s_["D"] * f_
+            desc["reactions"] = []
+            desc["extreme_D"] = True
+            if desc["state"] is None:
+                desc["state"] = [float(r.randint(0, 50)) for _ in range(len(desc["species"]) * gen.ncells(desc["space"]))]
         if not case["python"] or periodic_lengths_ok(desc["space"]):
             return desc, attempt
     raise AssertionError("no grid with periodic axes of length >= 3 found")
@@ -538,6 +549,9 @@ def run_equiv(case):
     state = gen.state_of(desc)
     f_free, mag = ref.rate_law(desc, state, None)          # used for the step size and error scales only
     maxrate = ref.max_rate(desc, state)
+    if desc.get("extreme_D"):
+        maxrate = max([m / (abs(s_) + 1.0) for m, s_ in zip(mag, state)] + [1e-300])     # no floor: the step follows the extreme scale
+        cnt["g_extreme_D_cases"] += 1
     dt = 0.02 / maxrate
     nsteps = case.get("steps", 10)
     osys = gen.mild_sys(r)
